@@ -31,8 +31,20 @@ impl Number {
         }
 
         Some(match self {
-            Integer(x) => Integer(negated(x)),
-            BigInt(x) => Integer(negated(x)),
+            Integer(x) => {
+                let negated = negated(x);
+
+                // `-(-2147483648)` is not an int: left to the interpreter, whose negation fails on it
+                if negated.parse::<i32>().is_err() {
+                    return None;
+                }
+
+                Integer(negated)
+            }
+            // an int literal is lexed without its sign, and 2147483648 alone only fits a bigint:
+            // `-2147483648` is the one negation of a bigint that spells an int
+            BigInt(x) if x == "2147483648" => Integer(negated(x)),
+            BigInt(x) => BigInt(negated(x)),
             Float(x) => Float(negated(x)),
             Byte(_) => return None,
         })
